@@ -1,9 +1,10 @@
 """C11 — address / port / ICMP validators (oslo_utils/netutils.py)
 
 Correspondence: the same generated cases through the real functions and through the extracted model
-(coq/Model/C11.v).  The two library oracles of the model (netaddr.valid_ipv4 in INET_ATON mode and
-netaddr.IPNetwork) are evaluated here and handed to the model as an argument; their contract
-(returns | raises ValueError / TypeError / AddrFormatError) is tested on every generated string.
+(coq/Model/C11.v).  netaddr.valid_ipv4 in INET_ATON mode, socket.inet_aton and netaddr.IPNetwork are modelled in
+Coq as well (no oracle argument is passed to the model any more); each library model is also compared with the
+library call itself (ops aton, na_aton, net, net6, pton4, pton6), and the library contract
+(returns | raises ValueError / TypeError / AddrFormatError) is still tested on every generated string.
 Oracle: model-free — `ipaddress`, `socket.inet_pton` / `inet_aton`, and direct string tests written from the
 property text."""
 import sys, os, re, socket, ipaddress, string
@@ -14,13 +15,16 @@ GEN = [('Gen/C11_Netutils.v', gen_C11.generate), ('Gen/C11_Code.v', gen_C11.gene
 EQUIV_FILES = ['Proofs/C11.v']
 EXTRACT = 'Extract/C11_x.v'
 LEVEL_TEXT = 'proof'
-LEVEL_NOTE = ('oslo logic + models of inet_pton(AF_INET/AF_INET6), CPython str->C string conversion, int(), str.lower(), re; '
-              'netaddr.IPNetwork and inet_aton acceptance enter as contract-carrying oracles (partial: their acceptance sets are library behaviour)')
-TRUSTED = ['glibc inet_pton (through socket.inet_pton) and netaddr.valid_ipv4/valid_ipv6 are MODELLED in Coq (Model/C11.v) and tied by '
-           'correspondence on every generated string (ops pton4/pton6 compare the model with socket.inet_pton directly)',
-           'netaddr.IPNetwork(s), IPNetwork(s, version=6).cidr and netaddr.valid_ipv4(s, INET_ATON) are ORACLES: Section-free arguments of '
-           'type ares with the contract "AOk _ | ARaise e with e in {ValueError, TypeError, AddrFormatError}" as an explicit premise; '
-           'the harness tests that contract on every generated string',
+LEVEL_NOTE = ('oslo logic + Coq models of every library function the validators reach: inet_pton(AF_INET/AF_INET6), inet_aton (glibc 2.36), '
+              'CPython str->C string conversion, netaddr.valid_ipv4 (both modes) / valid_ipv6 / IPNetwork(text[, version=6]) (netaddr 1.3.0), int(), '
+              'str.lower(), re; no oracle argument is left — the library models are tied by correspondence (ops pton4/pton6/aton/na_aton/net/net6)')
+TRUSTED = ['glibc inet_pton / inet_aton (through the socket module), netaddr.valid_ipv4 / valid_ipv6 / IPNetwork are MODELLED in Coq (Model/C11.v) '
+           'and tied by correspondence on every generated string: the ops pton4, pton6, aton, na_aton, net, net6 compare the model with the library '
+           'call itself (outcome and exception class), independently of the validators built on them',
+           'the logic layer is also proved against an arbitrary library outcome under an explicit contract (C11_ip_logic, C11_cidr_logic, '
+           'C11_validators_total_oracles); the harness tests that contract on every generated string',
+           'the value of an IPv6 netmask text is the one computed by the model function pton6_value (no declarative grammar for the VALUE of an '
+           'IPv6 text, only for its acceptance)',
            'CPython int(), str.lower(), re modelled in Base/PyInt.v, Base/Str.v (generated Unicode tables), Base/Regex.v; the MAC regex AST is '
            'regenerated from the source pattern through CPython\'s own re parser']
 ASSUMPTIONS = ['int() digit-count limit (4300) is not modelled: for longer digit strings CPython raises ValueError (-> False) and the model '
@@ -34,7 +38,8 @@ RULE = ('grammar generators of the quantifier text: dotted quads with 1..5 parts
         'int, bool, None; single-character mutations of valid values; printable / NUL / surrogate / non-ASCII strings; exhaustive short strings '
         'over small alphabets; every string also through the other validators; distinct = distinct case JSON')
 
-STR_OPS = ['ipv4', 'ipv4_ns', 'ipv6', 'ip', 'cidr', 'cidr6', 'mac', 'pton4', 'pton6']
+STR_OPS = ['ipv4', 'ipv4_ns', 'ipv6', 'ip', 'cidr', 'cidr6', 'mac', 'pton4', 'pton6', 'aton', 'na_aton', 'net', 'net6']
+LIB_OPS = ('pton4', 'pton6', 'aton', 'na_aton', 'net', 'net6')      # direct ties of the library models
 INT_OPS = {'port': (0, 65535), 'icmp_type': (0, 255), 'icmp_code': (0, 255)}
 
 def _nu():
@@ -97,6 +102,10 @@ def impl(c):
     if op == 'mac': return _truth(nu.is_valid_mac, s)
     if op == 'pton4': return _truth(lambda: (socket.inet_pton(socket.AF_INET, s), True)[1])
     if op == 'pton6': return _truth(lambda: (socket.inet_pton(socket.AF_INET6, s), True)[1])
+    if op == 'aton': return _truth(lambda: (socket.inet_aton(s), True)[1])
+    if op == 'na_aton': return lib_aton(s)
+    if op == 'net': return lib_net(s)
+    if op == 'net6': return lib_net6(s)
     raise KeyError(op)
 
 def encode(c):
@@ -108,9 +117,8 @@ def encode(c):
         if k == 'int': return [op, 'int', str(int(c['v']))]
         return [op, 'str', c['v']]
     s = c['s']
-    if op in ('ipv4_ns', 'ip'): return [op, s, lib_aton(s)]
-    if op == 'cidr': return [op, s, lib_net(s)]
-    if op == 'cidr6': return [op, s, lib_net6(s)]
+    # the former oracle arguments are now computed by the model itself (Model/C11.v sections 4, 5)
+    if op in ('ipv4_ns', 'ip', 'cidr', 'cidr6'): return [op + '_m', s]
     return [op, s]
 
 # ------------------------------------------------------------------ model-free references
@@ -157,7 +165,7 @@ def _prefix_demand(P, width):
 
 def oracle(c, out):
     op = c['op']
-    if out.startswith('EXN:') and op not in ('pton4', 'pton6'):
+    if out.startswith('EXN:') and op not in LIB_OPS:
         return '%s raised %s instead of answering' % (op, out[4:])
     if out.startswith('HARNESS'):
         return out
@@ -184,6 +192,8 @@ def oracle(c, out):
         return demand(bool(so), 'socket.inet_pton says %s' % so) if op == 'ipv4' else None
     if op == 'pton6':
         return demand(ref_ipv6_noscope(s), 'ipaddress.IPv6Address says otherwise')
+    if op in ('aton', 'na_aton', 'net', 'net6'):
+        return None            # library behaviour: tied to its Coq model by the correspondence only
     if op == 'ipv6':
         m = demand(ref_ipv6(s), 'ipaddress.IPv6Address (with a scope id of 1..%d characters) says %s' % (SCOPE_MAX, ref_ipv6(s)))
         if m: return m
@@ -256,16 +266,41 @@ def g_v4(rng, valid=False):
     sep = '.' if rng.random() < 0.92 else rng.choice(['..', ',', ':', ' .', '. ', '。', ''])
     return sep.join(parts)
 
+ATON_VALS = [0, 1, 7, 8, 9, 10, 63, 64, 127, 254, 255, 256, 257, 65534, 65535, 65536, 16777214, 16777215, 16777216,
+             4294967294, 4294967295, 4294967296, 2130706433, 2 ** 63, 2 ** 64 - 1, 2 ** 64, 2 ** 64 + 1, 10 ** 25]
+ATON_BAD = ['', '08', '09', '0x', '0X', '0xg', '0x1g', '00x1', '1a', 'a', '-1', '+1', ' 1', '1e1', '١', '0b1', '0o7', '１', '1_0', 'x1', '0x 1', '1L']
+def g_cnum(rng, small=False):
+    r = rng.random()
+    v = rng.choice([0, 1, 8, 10, 127, 255, 256, rng.randint(0, 255)]) if small or r < 0.5 else (rng.choice(ATON_VALS) if r < 0.9 else rng.randint(0, 2 ** 33))
+    k = rng.random()
+    if k < 0.5: return str(v)
+    if k < 0.68: return rng.choice(['0x%x', '0X%X', '0x%X', '0x0%x', '0x000%x']) % v
+    if k < 0.86: return rng.choice(['0%o', '00%o', '0000000000000000000000000%o']) % v
+    if k < 0.92: return '0' * rng.randint(1, 3) + str(v)           # leading zero on a decimal spelling: octal or junk
+    return rng.choice(ATON_BAD)
+
+ATON_TRAIL = ['', '', '', '', ' ', '\t', '\n', '\x0b', '\x0c', '\r', ' x', ' 1.2.3.4', '\tjunk \u00e9', ' \x00', '\x1c', '\x1f', '\x85', '\u00a0', '\u2028', 'x', '.',
+              ' .', '\n\n', ' :', ' /8', '\ud800', ' \ud800', ':', '%eth0', '/8']
+def g_aton(rng):
+    n = rng.choice([1, 2, 3, 4, 4, 4, rng.randint(1, 5)])
+    parts = [g_cnum(rng, small=rng.random() < 0.8) for _ in range(n - 1)] + [g_cnum(rng, small=rng.random() < 0.3)]
+    s = rng.choice(['.', '.', '.', '.', '.', '.', '.', '.', '..', ',']).join(parts)
+    k = rng.random()
+    if k < 0.08: s = rng.choice([' ', '\t', '\n', '0x', '.', '+', '-']) + s
+    return s + rng.choice(ATON_TRAIL)
+
 HEXD = '0123456789abcdefABCDEF'
+LONG_GROUPS = [False]
 def g_h16(rng, valid=False):
     r = rng.random()
     if valid or r < 0.8:
-        k = rng.choice([1, 1, 2, 3, 4, 4])
+        k = 4 if LONG_GROUPS[0] else rng.choice([1, 1, 2, 3, 4, 4])
         return rng.choice(['0' * k, 'f' * k, 'F' * k, ''.join(rng.choice(HEXD) for _ in range(k))])
     return rng.choice(['', '00000', '12345', 'g', 'G1', '0x1', '-1', '+1', ' 1', '1 ', '١', 'fffff', '1.2', '%', 'ffff0', 'Ａ'])
 
 def g_v6(rng, valid=False):
     """IPv6 text: n groups, '::' placement, embedded IPv4"""
+    LONG_GROUPS[0] = rng.random() < 0.15          # every group with 4 digits: the longest spellings (39 / 45 characters, + scope)
     r = rng.random()
     emb = rng.random() < 0.3
     tail = [g_v4(rng, valid or rng.random() < 0.7)] if emb else []
@@ -314,17 +349,41 @@ def g_v6_scoped(rng):
 PREFIXES = ['0', '1', '8', '16', '24', '30', '31', '32', '33', '34', '64', '96', '127', '128', '129', '130', '-1', '-0', '', '256', '1000']
 LENIENT = [' 8', '08', '008', '+8', '8 ', '٨', '1_0', '0x8', '8.0', '8e0', ' ', '\t8', '8\n', '255.255.255.0', '255.0.0.0', '0.0.0.255',
            '255.0.255.0', '255.255.255.255', '0.0.0.0', 'ffff::', 'ffff:ffff::', '::', '::ffff', 'a', '3 2', '32x', '８']
-def g_prefix(rng):
+INT_DECOR = ['%s', '%s', '+%s', '-%s', ' %s', '%s ', '\t%s\n', '0%s', '000%s', '%s_0', '_%s', '%s_', '\u00a0%s', '%s\u2003', '\x1c%s', '%s\x1f', '%s\x00', '+ %s',
+             '%s.0', '0x%s', '%se0', '%s/', '/%s', '%s/%s']
+UDIG = ['0123456789', '\u0660\u0661\u0662\u0663\u0664\u0665\u0666\u0667\u0668\u0669', '\uff10\uff11\uff12\uff13\uff14\uff15\uff16\uff17\uff18\uff19',
+        '\U0001d7ce\U0001d7cf\U0001d7d0\U0001d7d1\U0001d7d2\U0001d7d3\U0001d7d4\U0001d7d5\U0001d7d6\U0001d7d7']
+def g_mask(rng, fam=None):
+    """netmask / hostmask / neither, IPv4 or IPv6 (mostly the family of the address), with spelling variants"""
+    v4 = (rng.random() < 0.55) if fam is None or rng.random() < 0.12 else (fam == 4)
+    if v4:
+        k = rng.randint(0, 32); v = ((1 << 32) - (1 << (32 - k))) if rng.random() < 0.5 else ((1 << k) - 1)
+        if rng.random() < 0.2: v ^= 1 << rng.randrange(32)
+        q = [str((v >> sh) & 255) for sh in (24, 16, 8, 0)]
+        if rng.random() < 0.1: q[rng.randrange(4)] = rng.choice(['00', '0255', '256', '', '0x0', ' 0'])
+        return '.'.join(q)
+    k = rng.randint(0, 128); v = ((1 << 128) - (1 << (128 - k))) if rng.random() < 0.5 else ((1 << k) - 1)
+    if rng.random() < 0.2: v ^= 1 << rng.randrange(128)
+    a = ipaddress.IPv6Address(v)
+    return rng.choice([a.compressed, a.exploded, a.compressed.upper(), a.compressed + rng.choice(['%1', ' ', ':', '/'])])
+
+def g_prefix(rng, fam=None):
     r = rng.random()
-    if r < 0.45: return rng.choice(PREFIXES)
-    if r < 0.7: return str(rng.randint(-1, 129))
-    return rng.choice(LENIENT)
+    if r < 0.35: return rng.choice(PREFIXES)
+    if r < 0.55: return str(rng.randint(-1, 129))
+    if r < 0.70: return rng.choice(LENIENT)
+    if r < 0.85: return g_mask(rng, fam)
+    n = str(rng.choice([0, 8, 24, 32, 33, 64, 128, 129, rng.randint(0, 130)]))
+    if rng.random() < 0.4:
+        d = rng.choice(UDIG); n = ''.join(d[int(ch)] if rng.random() < 0.8 else ch for ch in n)
+    f = rng.choice(INT_DECOR)
+    return f % ((n,) * f.count('%s'))
 
 def g_cidr(rng):
     r = rng.random()
     a = g_v4(rng, rng.random() < 0.8) if r < 0.5 else (g_v6(rng, rng.random() < 0.8) if r < 0.95 else g_v6_scoped(rng))
     k = rng.random()
-    if k < 0.62: return a + '/' + g_prefix(rng)
+    if k < 0.62: return a + '/' + g_prefix(rng, 4 if r < 0.5 else 6)
     if k < 0.70: return a
     if k < 0.76: return a + '/'
     if k < 0.82: return a + '//' + g_prefix(rng)
@@ -378,11 +437,13 @@ def wrap(rng, s):
     if k < 0.97: return mutate(rng, s)
     return s.upper() if rng.random() < 0.5 else '[' + s + ']'
 
-FAMILY_OPS = {'v4': ['ipv4', 'ipv4_ns', 'ip', 'pton4'], 'v6': ['ipv6', 'ip', 'pton6'], 'cidr': ['cidr', 'cidr6'], 'mac': ['mac'], 'noise': STR_OPS}
+FAMILY_OPS = {'v4': ['ipv4', 'ipv4_ns', 'ip', 'pton4', 'aton', 'na_aton'], 'aton': ['ipv4', 'ipv4_ns', 'ip', 'aton', 'na_aton'], 'v6': ['ipv6', 'ip', 'pton6'],
+              'cidr': ['cidr', 'cidr6', 'net', 'net6'], 'mac': ['mac'], 'noise': STR_OPS}
 
 def g_string(rng):
     r = rng.random()
-    if r < 0.22: return 'v4', wrap(rng, g_v4(rng))
+    if r < 0.14: return 'v4', wrap(rng, g_v4(rng))
+    if r < 0.24: return 'aton', g_aton(rng)
     if r < 0.40: return 'v6', wrap(rng, g_v6(rng))
     if r < 0.50: return 'v6', wrap(rng, g_v6_scoped(rng))
     if r < 0.72: return 'cidr', wrap(rng, g_cidr(rng))
@@ -417,6 +478,11 @@ BOUNDARY = [
     ('v4', ['0.0.0.0', '255.255.255.255', '256.0.0.0', '0.0.0.256', '1.2.3', '1.2.3.4.5', '1.2.3.4.', '.1.2.3.4', '1..2.3', '01.2.3.4', '1.2.3.04',
             '1.2.3.00', '0x7f.0.0.1', '0177.0.0.1', '127.1', '1', '2130706433', '1.2.3.4 ', ' 1.2.3.4', '1.2.3.4\n', '1.2.3.4\x00', '\x001.2.3.4',
             '1.2.3.4 x', '1.2.3.4\tx', '١.2.3.4', '1.2.3.4\ud800', '1.2.3.-1', '1.2.3.+4', '1.2.3.4:', ':1.2.3.4', '', ' ', '.', '...', '1.2.3.0004']),
+    ('aton', ['1', '0', '4294967295', '4294967296', '1.2', '1.16777215', '1.16777216', '1.2.3', '1.2.65535', '1.2.65536', '1.2.3.4', '1.2.3.255', '1.2.3.256',
+              '256.1', '255.1', '1.256.1', '1.2.3.4.5', '0x7f.1', '0x7f.0.0.1', '0X7F000001', '0x100000000', '017700000001', '0177.0.0.01', '08', '0.08', '1.2.3.08',
+              '0x', '0x.1', '1.0x', '00', '00.00.00.00', '0x0.0x0.0x0.0x0', '1.2.3.4 ', '1.2.3.4\t', '1.2.3.4\n', '1.2.3.4\x0b', '1.2.3.4\x0c', '1.2.3.4\r', '1.2.3.4 x',
+              '1.2.3.4 \x00', '1.2.3.4\x1c', '1.2.3.4\x85', '1.2.3.4\u00a0', '1.2.3.4x', '1.2.3.4.', '1.', '.1', '1..2', ' 1.2.3.4', '+1', '-1', '1.2.3.4 :', '1 2', '1\n2',
+              '1.2.3.4 \ud800', '1.2.3.4 \u00e9', '99999999999999999999', '0x1.0x2.0x3.0x4', '1.2.0x10000', '1.2.0xffff', '0xffffffff', '0377.0377.0377.0377', '0400.1']),
     ('v6', ['::', '::1', '1::', ':', ':::', '1:2:3:4:5:6:7:8', '1:2:3:4:5:6:7', '1:2:3:4:5:6:7:8:9', '1:2:3:4:5:6:7::', '::2:3:4:5:6:7:8',
             '1::3:4:5:6:7:8', '1:2:3:4:5:6:7::8', '1:2:3:4:5:6:7:8::', '::1:2:3:4:5:6:7:8', ':1:2:3:4:5:6:7', '1:2:3:4:5:6:7:', '1:2:3:4:5:6:1.2.3.4',
             '::1.2.3.4', '1::1.2.3.4', '1:2:3:4:5::1.2.3.4', '1:2:3:4:5:6::1.2.3.4', '::1:2:3:4:5:1.2.3.4', '::1:2:3:4:5:6:1.2.3.4',
@@ -424,7 +490,8 @@ BOUNDARY = [
             '::ffff:1.2.3.4', '1:::2', '::1::', '1::2::3', '0:0:0:0:0:0:0:0', '00000::', '::00001', '::1.2.3', '::1.2.3.4.5', '::1.2.3.256',
             'ABCD::abcd', '::\x00', '::1 ', ' ::1', '::1\n', '[::1]', '::a.2.3.4', '::1234.2.3.4', '::255.2.3.4', 'fe80::1%eth0', 'fe80::1%',
             'fe80::1%' + 'a' * 15, 'fe80::1%' + 'a' * 16, 'fe80::1%a%b', 'fe80::1%%', '%eth0', '%', 'fe80::1%\x00', 'fe80::1%\n', 'fe80::1%/64',
-            '::%1', '1:2:3:4:5:6:7:8%1', '::1.2.3.4%1', '١::', '::١', 'ffff:ffff:ffff:ffff:ffff:ffff:ffff:ffff', '1:2:3:4:5:6:7:8\ud800']),
+            '::%1', '1:2:3:4:5:6:7:8%1', 'ffff:ffff:ffff:ffff:ffff:ffff:ffff:ffff%' + 'a' * 15, 'ffff:ffff:ffff:ffff:ffff:ffff:255.255.255.255%' + 'b' * 15,
+            'ffff:ffff:ffff:ffff:ffff:ffff:255.255.255.255', '0000:0000:0000:0000:0000:0000:0000:0000%x', 'ABCD:ABCD:ABCD:ABCD:ABCD:ABCD:192.168.100.200%eth0', '::1.2.3.4%1', '١::', '::١', 'ffff:ffff:ffff:ffff:ffff:ffff:ffff:ffff', '1:2:3:4:5:6:7:8\ud800']),
     ('cidr', ['10.0.0.0/8', '10.0.0.0/0', '10.0.0.0/32', '10.0.0.0/33', '10.0.0.0/-1', '10.0.0.0', '10.0.0.0/', '10.0.0.0//', '10.0.0.0//8',
               '10.0.0.0/8/8', '10.0.0.0/8/', '/8', '/', '', '::/0', '::/128', '::/129', '::/-1', '::', '::/', '::/64/64', '::1/128', '1::/ffff::',
               '10.0.0.0/255.0.0.0', '10.0.0.0/0.0.0.255', '10.0.0.0/255.0.255.0', '10.0.0.0/ 8', '10.0.0.0/08', '10.0.0.0/+8', '10.0.0.0/8 ',
